@@ -116,14 +116,25 @@ pub fn run(reg: &dyn Registry, ctx: &Ctx) -> Outcome {
             if let Err(o) = r {
                 ctx.violation(&format!("C14:{}:long-run", info.name), &format!("{}: panicked during a run of {} blocks / {} words: {:?}", info.name, blocks, words, o), json!({"kind":"long-run","type":info.name,"ctor":makers[1].describe(),"words":words}));
             }
-            if info.has_jump {
-                // value-directed states: those whose jump()/long_jump() image is special (zero word, ...)
+            if info.linear_bits.is_some() {
+                // value-directed states: those whose jump()/long_jump() image, or whose successor, is special
+                // (a zero word, equal words, words summing to zero, ...), and the special states themselves
                 for (_, opname, sb) in super::c18aux::for_type(*ty, ctx.seed) {
-                    let op = if opname == "jump" { Op::Jump } else { Op::LongJump };
+                    let op = match opname {
+                        "jump" => Op::Jump,
+                        "long_jump" => Op::LongJump,
+                        _ => Op::U32,
+                    };
                     let r = guarded(|| {
                         let mut g = ty.from_seed(&sb);
                         let o = apply(&mut g, &op);
-                        let o2 = apply(&mut g, &Op::U64);
+                        let mut o2 = apply(&mut g, &Op::U64);
+                        for extra in [Op::U32, Op::U64, Op::Fill(9)] {
+                            let o3 = apply(&mut g, &extra);
+                            if o3.is_panic() {
+                                o2 = o3;
+                            }
+                        }
                         (o, o2)
                     });
                     ctx.add("transitions", 2);
@@ -133,9 +144,11 @@ pub fn run(reg: &dyn Registry, ctx: &Ctx) -> Outcome {
                         Err(_) => true,
                     };
                     if bad {
-                        ctx.violation(&format!("C14:{}:jump", info.name), &format!("{}: {} from state {} (whose image has a special word pattern) panicked: {:?}", info.name, opname, hex(&sb), r), json!({"kind":"history","type":info.name,"ctor":{"from_seed":hex(&sb)},"ops":ops_json(&[op.clone(), Op::U64])}));
+                        ctx.violation(&format!("C14:{}:jump", info.name), &format!("{}: {} from state {} (which has, or whose image has, a special word pattern) panicked: {:?}", info.name, opname, hex(&sb), r), json!({"kind":"history","type":info.name,"ctor":{"from_seed":hex(&sb)},"ops":ops_json(&[op.clone(), Op::U64])}));
                     }
                 }
+            }
+            if info.has_jump {
                 let mut g = makers[1].make();
                 for _ in 0..64 {
                     for op in [Op::Jump, Op::LongJump, Op::U64] {
@@ -267,6 +280,34 @@ pub fn run(reg: &dyn Registry, ctx: &Ctx) -> Outcome {
             jit_run(rd, &[Op::SetRounds(rounds), Op::U32, Op::U64, Op::U32], &format!("{} consecutive stuck measurements ({:?}) in the second collection, rounds {}", k, kind, rounds), "stuck-run");
         });
         ctx.set("longest_stuck_run", maxk as u64);
+    }
+    // a long life of one object (per-object accumulators): 2^16 + 8 collections, with a clone half-way
+    {
+        let n = (1usize << 16) + 8;
+        let rd = jitter_env::raw_readings(ctx.seed ^ 0x1416, n * jitter_env::readings_per_word(1) + 64);
+        let script = TimerScript::new(rd);
+        let mut g = reg.jitter(script);
+        let r = guarded(|| {
+            g.jitter().unwrap().set_rounds(1);
+            for i in 0..n {
+                if i % 3 == 0 {
+                    g.next_u32();
+                } else {
+                    g.next_u64();
+                }
+                if i == n / 2 {
+                    let mut c = g.clone_box();
+                    c.next_u64();
+                }
+            }
+        });
+        ctx.add("jitter_executions", 1);
+        ctx.add("transitions", n as u64);
+        if let Err(o) = r {
+            if !matches!(o, Obs::Horizon) {
+                ctx.violation("C14:jitter:long-life", &format!("JitterRng: panicked during a life of {} collections: {:?}", n, o), json!({"kind":"note","collections":n}));
+            }
+        }
     }
     // bursts of three consecutive probe deltas
     let menu: Vec<i64> = vec![0, 1, -1, 1 << 30, -(1 << 30), -(1 << 30) + 1, (1 << 30) + (1 << 29), -((1 << 30) + (1 << 29)), (1i64 << 31) - 1, -(1i64 << 31), (1i64 << 31) + 5, (1i64 << 32) - 1];
